@@ -58,6 +58,6 @@ def execute(case, ctx):
 
 SUBS = [
     Sub("episodes", execute, strategy=lambda tier: episode_cases(tier, ENVS),
-        budget={"quick": 4000, "thorough": 60000}, shards=16),
+        budget={"quick": 8000, "thorough": 100000}, shards=16),
 ]
 TIME_CAP = {"quick": 400, "thorough": 3000}
